@@ -2,8 +2,8 @@
       [compose] (one or several substitutions, by name), [rename], [cube],
       the quantifier rows of [apply], and [let].
 
-    Same premises as in [Dynamic]: [sifting_ok], [Inv s], [Counts s L],
-    [rctx s = false], operands [valid] and held ([ref_by L s]). *)
+    Same premises as in [Dynamic]: [sifting_ok'], [Inv s], [Counts s L],
+    [rctx s = false], operands [valid] and held ([heldn L]). *)
 From DD Require Export Total Support.
 From DD Require Export Dynamic.
 
@@ -368,23 +368,23 @@ Proof.
 Qed.
 
 Theorem compose_dynamic s L f var_sub r s' :
-  sifting_ok →
+  sifting_ok' →
   Inv s → Counts s L → rctx s = false →
-  valid s f → ref_by L s (absn f) →
-  Forall (fun p => is_Some (vars s !! p.1) ∧ valid s p.2 ∧ ref_by L s (absn p.2)) var_sub →
+  valid s f → heldn L (absn f) →
+  Forall (fun p => is_Some (vars s !! p.1) ∧ valid s p.2 ∧ heldn L (absn p.2)) var_sub →
   compose f var_sub s = (r, s') →
   r = Err EOracle ∨
   ∃ x, r = Ok x ∧ Inv s' ∧ Counts s' L ∧ rctx s' = false ∧
        (last_len s = None → last_len s' = None) ∧
        (is_Some (last_len s) → is_Some (last_len s')) ∧
-       keeps (ref_by L s) s s' ∧
+       keeps (heldn L) s s' ∧
        valid s' x ∧
        ∀ ρ, denv s' x ρ = denv s f (vsubstv s (list_to_map (reverse var_sub)) ρ).
 Proof.
   intros Hs HI HC Hc Hf Kf HF Hrun.
   change (compose f var_sub) with (try_to_reorder (compose_body f var_sub)) in Hrun.
   assert (Hok : sub_ok s var_sub) by (eapply Forall_impl; [exact HF|]; by intros p (?&?&_)).
-  assert (Hheld : sub_held (ref_by L s) var_sub)
+  assert (Hheld : sub_held (heldn L) var_sub)
     by (eapply Forall_impl; [exact HF|]; by intros p (_&_&?)).
   destruct (try_to_reorder_correct (compose_body f var_sub) (compose_pre f var_sub)
               (compose_post f var_sub) s L r s' Hs
@@ -394,16 +394,16 @@ Qed.
 
 (** one substitution, spelled out *)
 Corollary compose1_dynamic s L f v g r s' :
-  sifting_ok →
+  sifting_ok' →
   Inv s → Counts s L → rctx s = false →
-  valid s f → ref_by L s (absn f) →
-  is_Some (vars s !! v) → valid s g → ref_by L s (absn g) →
+  valid s f → heldn L (absn f) →
+  is_Some (vars s !! v) → valid s g → heldn L (absn g) →
   compose f [(v, g)] s = (r, s') →
   r = Err EOracle ∨
   ∃ x, r = Ok x ∧ Inv s' ∧ Counts s' L ∧ rctx s' = false ∧
        (last_len s = None → last_len s' = None) ∧
        (is_Some (last_len s) → is_Some (last_len s')) ∧
-       keeps (ref_by L s) s s' ∧
+       keeps (heldn L) s s' ∧
        valid s' x ∧
        ∀ ρ, denv s' x ρ =
             denv s f (fun y => if decide (y = v) then denv s g ρ else ρ y).
@@ -506,16 +506,16 @@ Proof.
 Qed.
 
 Theorem rename_dynamic s L u dvars r s' :
-  sifting_ok →
+  sifting_ok' →
   Inv s → Counts s L → rctx s = false →
-  valid s u → ref_by L s (absn u) →
+  valid s u → heldn L (absn u) →
   (∀ x y, (x, y) ∈ dvars → is_Some (vars s !! y)) →
   rename u dvars s = (r, s') →
   r = Err EOracle ∨
   ∃ x, r = Ok x ∧ Inv s' ∧ Counts s' L ∧ rctx s' = false ∧
        (last_len s = None → last_len s' = None) ∧
        (is_Some (last_len s) → is_Some (last_len s')) ∧
-       keeps (ref_by L s) s s' ∧
+       keeps (heldn L) s s' ∧
        valid s' x ∧
        ∀ ρ, denv s' x ρ = denv s u (renv (list_to_map (reverse dvars)) ρ).
 Proof.
@@ -663,7 +663,7 @@ Proof.
 Qed.
 
 Theorem cube_dynamic s L dvars r s' :
-  sifting_ok →
+  sifting_ok' →
   Inv s → Counts s L → rctx s = false →
   Forall (fun p => is_Some (vars s !! p.1)) dvars →
   cube dvars s = (r, s') →
@@ -671,7 +671,7 @@ Theorem cube_dynamic s L dvars r s' :
   ∃ x, r = Ok x ∧ Inv s' ∧ Counts s' L ∧ rctx s' = false ∧
        (last_len s = None → last_len s' = None) ∧
        (is_Some (last_len s) → is_Some (last_len s')) ∧
-       keeps (ref_by L s) s s' ∧
+       keeps (heldn L) s s' ∧
        valid s' x ∧
        ∀ ρ, denv s' x ρ = true ↔ ∀ v b, (v, b) ∈ dvars → ρ v = b.
 Proof.
@@ -686,16 +686,16 @@ Qed.
     support of [u] (the variable names [u] depends on); [apply] is not
     decorated, the support is read before the decorated [quantify] starts *)
 Theorem apply_quant_dynamic s L op fa u v r s' :
-  sifting_ok →
+  sifting_ok' →
   Inv s → Counts s L → rctx s = false →
   (fa = true ∧ op ∈ ["\A"; "forall"]) ∨ (fa = false ∧ op ∈ ["\E"; "exists"]) →
-  valid s u → valid s v → ref_by L s (absn v) →
+  valid s u → valid s v → heldn L (absn v) →
   apply op u (Some v) None s = (r, s') →
   r = Err EOracle ∨
   ∃ x Q, r = Ok x ∧ Inv s' ∧ Counts s' L ∧ rctx s' = false ∧
        (last_len s = None → last_len s' = None) ∧
        (is_Some (last_len s) → is_Some (last_len s')) ∧
-       keeps (ref_by L s) s s' ∧
+       keeps (heldn L) s s' ∧
        valid s' x ∧
        (∀ y, y ∈ Q ↔ ∃ l, vars s !! y = Some l ∧ depends s u l) ∧
        ∀ ρ, denv s' x ρ = true ↔ qsemv s fa Q v ρ.
@@ -734,7 +734,7 @@ Definition let_ok (L : positive → nat) (s : st) (d : let_arg) : Prop :=
   match d with
   | LetBool d => Forall (fun p => is_Some (vars s !! p.1)) d
   | LetRef d =>
-      Forall (fun p => is_Some (vars s !! p.1) ∧ valid s p.2 ∧ ref_by L s (absn p.2)) d
+      Forall (fun p => is_Some (vars s !! p.1) ∧ valid s p.2 ∧ heldn L (absn p.2)) d
   | LetName d => ∀ x y, (x, y) ∈ d → is_Some (vars s !! y)
   end.
 
@@ -745,15 +745,15 @@ Proof.
 Qed.
 
 Theorem let_dynamic s L d u r s' :
-  sifting_ok →
+  sifting_ok' →
   Inv s → Counts s L → rctx s = false →
-  valid s u → ref_by L s (absn u) → let_ok L s d →
+  valid s u → heldn L (absn u) → let_ok L s d →
   let_ d u s = (r, s') →
   r = Err EOracle ∨
   ∃ x, r = Ok x ∧ Inv s' ∧ Counts s' L ∧ rctx s' = false ∧
        (last_len s = None → last_len s' = None) ∧
        (is_Some (last_len s) → is_Some (last_len s')) ∧
-       keeps (ref_by L s) s s' ∧
+       keeps (heldn L) s s' ∧
        valid s' x ∧
        ∀ ρ, denv s' x ρ = denv s u (let_sem s d ρ).
 Proof.
@@ -764,7 +764,7 @@ Proof.
             ∃ x, r = Ok x ∧ Inv s' ∧ Counts s' L ∧ rctx s' = false ∧
               (last_len s = None → last_len s' = None) ∧
               (is_Some (last_len s) → is_Some (last_len s')) ∧
-              keeps (ref_by L s) s s' ∧ valid s' x ∧
+              keeps (heldn L) s s' ∧ valid s' x ∧
               ∀ ρ, denv s' x ρ = denv s u (let_sem s d0 ρ)).
   { intros d0 Hd [= <- <-]. right. exists u. do 6 (split; [done|]).
     split; [by apply keeps_extends|]. split; [done|].
